@@ -1,9 +1,569 @@
 package main
 
-// Replaying solver counterexamples against the real code (see DESIGN.md section 5.4).
+// Replaying solver counterexamples against the real code (DESIGN.md section 5.4 / 12.1).
+//
+// Scope: functions whose parameters and results are built from float64 / int / bool / string, structs of such, and
+// pointers to such (no slices, maps, interfaces or function values).  For a failed obligation with a model the inputs are
+// read off the model, the real function is called on them in an in-package test injected with `go test -overlay`, and
+//   - for an `ensures` obligation the returned values are compared with the values the solver derived for them: when they
+//     agree, the real code produces exactly the output for which the solver refuted the clause;
+//   - for `panics.justified` / `safe.nopanic` the real call must panic, for `panics.iff_returns` it must return.
+// Anything else (or a disagreement, e.g. through float64 rounding) is reported as "not replayed".
 
-// tryReplay attempts to turn the solver's model for a failed obligation into a concrete call of the
-// real function.  Returns (reproduced, description).
+import (
+	"bytes"
+	"context"
+	"encoding/json"
+	"fmt"
+	"go/types"
+	"math"
+	"os"
+	"os/exec"
+	"path/filepath"
+	"regexp"
+	"sort"
+	"strconv"
+	"strings"
+	"time"
+
+	"golang.org/x/tools/go/ssa"
+)
+
+type replayLeaf struct {
+	Expr string // Go expression of the leaf inside the harness (inputs: assignment target; outputs: value)
+	Term *Term
+	Kind string // real int bool str
+}
+
+type ReplayInfo struct {
+	Fn      *ssa.Function
+	Mode    string // returns | panics
+	Setup   []string // Go statements declaring the arguments (before the leaves are assigned)
+	Args    []string // argument expressions of the call
+	Inputs  []replayLeaf
+	Outputs []replayLeaf
+	Imports map[string]string // path -> alias
+	Ptrs    []replayPtr
+	StrLits map[string]string // strlit constant -> literal text
+}
+
+type replayPtr struct {
+	Var  string
+	Term *Term
+	Type string
+	Expr string // where the pointer is stored
+}
+
+func leafKind(t types.Type) string {
+	if b, ok := types.Unalias(t).Underlying().(*types.Basic); ok {
+		switch {
+		case b.Info()&types.IsFloat != 0:
+			return "real"
+		case b.Info()&types.IsInteger != 0:
+			return "int"
+		case b.Info()&types.IsBoolean != 0:
+			return "bool"
+		case b.Info()&types.IsString != 0:
+			return "str"
+		}
+	}
+	return ""
+}
+
+// replayInfo describes how to call the function under verification with values read from a model (nil if out of scope).
+func (x *Exec) replayInfo(st *State, results []*Term, mode string) (ri *ReplayInfo) {
+	defer func() {
+		if r := recover(); r != nil {
+			ri = nil
+		}
+	}()
+	fn := x.vc.fn
+	if fn.Parent() != nil || len(fn.FreeVars) > 0 || fn.Pkg == nil {
+		return nil
+	}
+	ri = &ReplayInfo{Fn: fn, Mode: mode, Imports: map[string]string{}, StrLits: map[string]string{}}
+	qual := func(p *types.Package) string {
+		if p == fn.Pkg.Pkg {
+			return ""
+		}
+		alias := "p" + sanitize(p.Name())
+		ri.Imports[p.Path()] = alias
+		return alias
+	}
+	n := 0
+	ok := true
+	var walkIn func(expr string, term *Term, t types.Type, depth int)
+	walkIn = func(expr string, term *Term, t types.Type, depth int) {
+		if depth > 4 {
+			ok = false
+			return
+		}
+		if k := leafKind(t); k != "" {
+			ri.Inputs = append(ri.Inputs, replayLeaf{Expr: expr, Term: term, Kind: k})
+			return
+		}
+		switch u := types.Unalias(t).Underlying().(type) {
+		case *types.Struct:
+			s := x.TI.SortOf(t)
+			for i := 0; i < u.NumFields(); i++ {
+				walkIn(expr+"."+u.Field(i).Name(), x.TI.FieldSel(s, i, term), u.Field(i).Type(), depth+1)
+			}
+		case *types.Pointer:
+			if _, isStruct := types.Unalias(u.Elem()).Underlying().(*types.Struct); !isStruct {
+				ok = false
+				return
+			}
+			n++
+			v := fmt.Sprintf("o%d", n)
+			ts := types.TypeString(u.Elem(), qual)
+			pe := expr
+			if depth == 0 {
+				pe = "" // a pointer parameter is never replayed as nil (a dereference assumes non-nil, DESIGN.md section 9)
+			}
+			ri.Ptrs = append(ri.Ptrs, replayPtr{Var: v, Term: term, Type: ts, Expr: pe})
+			ri.Setup = append(ri.Setup, fmt.Sprintf("%s := &%s{}", v, ts), fmt.Sprintf("%s = %s", expr, v))
+			s := x.TI.SortOf(u.Elem())
+			pointee := Select(x.heapGet(x.vc.entry, hpComp(s), hpSort(s)), term)
+			walkIn("(*"+v+")", pointee, u.Elem(), depth+1)
+		default:
+			ok = false
+		}
+	}
+	for i, p := range fn.Params {
+		name := p.Name()
+		sv, has := x.vc.paramEnv[name]
+		if !has || sv.T == nil {
+			return nil
+		}
+		v := fmt.Sprintf("a%d", i)
+		ri.Setup = append(ri.Setup, fmt.Sprintf("var %s %s", v, types.TypeString(p.Type(), qual)))
+		ri.Args = append(ri.Args, v)
+		walkIn(v, sv.T, p.Type(), 0)
+	}
+	if !ok {
+		return nil
+	}
+	var walkOut func(expr string, term *Term, t types.Type, depth int)
+	walkOut = func(expr string, term *Term, t types.Type, depth int) {
+		if depth > 3 || !ok {
+			ok = false
+			return
+		}
+		if k := leafKind(t); k != "" {
+			ri.Outputs = append(ri.Outputs, replayLeaf{Expr: expr, Term: term, Kind: k})
+			return
+		}
+		switch u := types.Unalias(t).Underlying().(type) {
+		case *types.Struct:
+			s := x.TI.SortOf(t)
+			for i := 0; i < u.NumFields(); i++ {
+				if leafKind(u.Field(i).Type()) != "" {
+					walkOut(expr+"."+u.Field(i).Name(), x.TI.FieldSel(s, i, term), u.Field(i).Type(), depth+1)
+				}
+			}
+		case *types.Pointer:
+			if _, isStruct := types.Unalias(u.Elem()).Underlying().(*types.Struct); !isStruct {
+				ok = false
+				return
+			}
+			s := x.TI.SortOf(u.Elem())
+			walkOut("(*"+expr+")", Select(x.heapGet(st, hpComp(s), hpSort(s)), term), u.Elem(), depth+1)
+		default:
+			ok = false
+		}
+	}
+	res := fn.Signature.Results()
+	if mode == "returns" {
+		for i, t := range results {
+			walkOut(fmt.Sprintf("r%d", i), t, res.At(i).Type(), 0)
+		}
+		if !ok {
+			return nil
+		}
+	}
+	for name := range x.U.funcs {
+		if strings.HasPrefix(name, "strlit_") {
+			if v, has := x.TI.litText[name]; has {
+				ri.StrLits[name] = v
+			}
+		}
+	}
+	return ri
+}
+
+// ---- model access
+
+type sexp struct {
+	atom string
+	list []*sexp
+}
+
+func parseSexps(s string) []*sexp {
+	var stack [][]*sexp
+	cur := []*sexp{}
+	i := 0
+	for i < len(s) {
+		c := s[i]
+		switch {
+		case c == '(':
+			stack = append(stack, cur)
+			cur = []*sexp{}
+			i++
+		case c == ')':
+			l := &sexp{list: cur}
+			if len(stack) == 0 {
+				return cur
+			}
+			cur = stack[len(stack)-1]
+			stack = stack[:len(stack)-1]
+			cur = append(cur, l)
+			i++
+		case c == ' ' || c == '\n' || c == '\t' || c == '\r':
+			i++
+		case c == '|':
+			j := strings.IndexByte(s[i+1:], '|')
+			if j < 0 {
+				return cur
+			}
+			cur = append(cur, &sexp{atom: s[i : i+j+2]})
+			i += j + 2
+		default:
+			j := i
+			for j < len(s) && !strings.ContainsRune("() \n\t\r", rune(s[j])) {
+				j++
+			}
+			cur = append(cur, &sexp{atom: s[i:j]})
+			i = j
+		}
+	}
+	return cur
+}
+
+func (e *sexp) String() string {
+	if e.list == nil {
+		return e.atom
+	}
+	var ps []string
+	for _, c := range e.list {
+		ps = append(ps, c.String())
+	}
+	return "(" + strings.Join(ps, " ") + ")"
+}
+
+func sexpNumber(e *sexp) (float64, bool) {
+	if e.list == nil {
+		f, err := strconv.ParseFloat(e.atom, 64)
+		return f, err == nil
+	}
+	if len(e.list) == 2 && e.list[0].atom == "-" {
+		f, ok := sexpNumber(e.list[1])
+		return -f, ok
+	}
+	if len(e.list) == 3 && e.list[0].atom == "/" {
+		a, ok1 := sexpNumber(e.list[1])
+		b, ok2 := sexpNumber(e.list[2])
+		if ok1 && ok2 && b != 0 {
+			return a / b, true
+		}
+	}
+	return 0, false
+}
+
+// tryReplay: see the file comment.  Returns (reproduced, description).
 func tryReplay(w *World, o *Obligation, rec map[string]interface{}) (bool, string) {
-	return false, "no replay harness for this obligation kind yet; the solver model is attached"
+	ri := o.Replay
+	if ri == nil {
+		return false, "outside the replay scope (parameters/results with slices, maps, interfaces or function values, or not an ensures/panics obligation); the solver model is attached"
+	}
+	if o.File == "" || strings.Contains(o.Solver, "(") {
+		return false, "the model comes from a weakened encoding: not a counterexample"
+	}
+	data, err := os.ReadFile(o.File)
+	if err != nil {
+		return false, "cannot read the obligation file"
+	}
+	script := string(data)
+	script = strings.Replace(script, "(get-model)", "", -1)
+	idx := strings.LastIndex(script, "(check-sat)")
+	if idx < 0 {
+		return false, "malformed obligation file"
+	}
+	script = script[:idx]
+	var names []string
+	var b strings.Builder
+	b.WriteString(script)
+	declared := map[string]bool{}
+	for _, m := range regexp.MustCompile(`\(declare-(?:fun|const|datatypes?) \(?\(?(\S+)`).FindAllStringSubmatch(script, -1) {
+		declared[strings.Trim(m[1], "()")] = true
+	}
+	known := func(t *Term) bool {
+		ok := true
+		t.walk(func(s *Term) {
+			if (s.Kind == kVar || (s.Kind == kApp && len(s.Args) == 0)) && !declared[s.Op] && !strings.HasPrefix(s.Op, "(") {
+				if _, err := strconv.ParseFloat(s.Op, 64); err != nil && s.Op != "true" && s.Op != "false" {
+					ok = false
+				}
+			}
+		})
+		return ok
+	}
+	def := func(name string, t *Term) {
+		if !known(t) {
+			return // the obligation does not mention this part of the state: any value will do (Go zero value)
+		}
+		fmt.Fprintf(&b, "(declare-const %s %s)\n(assert (= %s %s))\n", name, t.Sort, name, t.String())
+		names = append(names, name)
+	}
+	for i, l := range ri.Inputs {
+		def(fmt.Sprintf("rv_in_%d", i), l.Term)
+	}
+	for i, l := range ri.Outputs {
+		def(fmt.Sprintf("rv_out_%d", i), l.Term)
+	}
+	for i, p := range ri.Ptrs {
+		def(fmt.Sprintf("rv_ptr_%d", i), p.Term)
+	}
+	var lits []string
+	for name := range ri.StrLits {
+		if strings.Contains(script, name+" ") || strings.Contains(script, name+")") {
+			lits = append(lits, name)
+		}
+	}
+	sort.Strings(lits)
+	for i, name := range lits {
+		def(fmt.Sprintf("rv_lit_%d", i), App(name, SStr))
+	}
+	b.WriteString("(check-sat)\n(get-value (" + strings.Join(names, " ") + "))\n")
+	qf := strings.TrimSuffix(o.File, ".smt2") + ".replay.smt2"
+	os.WriteFile(qf, []byte(b.String()), 0o644)
+	ctx, cancel := context.WithTimeout(context.Background(), 60*time.Second)
+	defer cancel()
+	out, _ := exec.CommandContext(ctx, "z3-new", "-T:50", qf).CombinedOutput()
+	text := string(out)
+	if !strings.HasPrefix(strings.TrimSpace(text), "sat") {
+		return false, "the solver did not reproduce the model with the read-out terms: " + truncate(strings.TrimSpace(text), 200)
+	}
+	vals := map[string]*sexp{}
+	for _, top := range parseSexps(text[strings.Index(text, "sat")+3:]) {
+		for _, pair := range top.list {
+			if len(pair.list) == 2 {
+				vals[pair.list[0].atom] = pair.list[1]
+			}
+		}
+	}
+	// strings: model values of the uninterpreted sort -> Go strings (literals keep their text)
+	strOf := map[string]string{}
+	for i, name := range lits {
+		if v := vals[fmt.Sprintf("rv_lit_%d", i)]; v != nil {
+			strOf[v.String()] = ri.StrLits[name]
+		}
+	}
+	goStr := func(v *sexp) string {
+		k := v.String()
+		if s, ok := strOf[k]; ok {
+			return s
+		}
+		s := "s" + regexp.MustCompile(`[^0-9A-Za-z]+`).ReplaceAllString(k, "")
+		strOf[k] = s
+		return s
+	}
+	inputsDesc := map[string]interface{}{}
+	var assigns []string
+	for i, l := range ri.Inputs {
+		v := vals[fmt.Sprintf("rv_in_%d", i)]
+		if v == nil {
+			continue // not mentioned by the obligation: zero value
+		}
+		var lit string
+		switch l.Kind {
+		case "real":
+			f, ok := sexpNumber(v)
+			if !ok || math.IsInf(f, 0) || math.IsNaN(f) {
+				return false, "model value of " + l.Expr + " is not a rational literal: " + v.String()
+			}
+			lit = strconv.FormatFloat(f, 'g', -1, 64)
+			if !strings.ContainsAny(lit, ".e") {
+				lit += ".0"
+			}
+			inputsDesc[l.Expr] = f
+		case "int":
+			f, ok := sexpNumber(v)
+			if !ok || math.Abs(f) > 1e15 {
+				return false, "model value of " + l.Expr + " is not a small integer: " + v.String()
+			}
+			lit = strconv.FormatInt(int64(f), 10)
+			inputsDesc[l.Expr] = int64(f)
+		case "bool":
+			lit = v.String()
+			inputsDesc[l.Expr] = lit == "true"
+		case "str":
+			lit = strconv.Quote(goStr(v))
+			inputsDesc[l.Expr] = goStr(v)
+		}
+		assigns = append(assigns, fmt.Sprintf("%s = %s", l.Expr, convLit(l, lit)))
+	}
+	// pointers with the same model address share one object
+	var share []string
+	seenPtr := map[string]string{}
+	for i, p := range ri.Ptrs {
+		v := vals[fmt.Sprintf("rv_ptr_%d", i)]
+		if v == nil {
+			continue
+		}
+		if v.String() == "0" && p.Expr != "" {
+			share = append(share, p.Expr+" = nil")
+			continue
+		}
+		k := p.Type + "@" + v.String()
+		if first, ok := seenPtr[k]; ok {
+			share = append(share, fmt.Sprintf("*%s = *%s // same address in the model", p.Var, first))
+		} else {
+			seenPtr[k] = p.Var
+		}
+	}
+	rec["replay_inputs"] = inputsDesc
+	// harness
+	fn := ri.Fn
+	call := fn.Name()
+	args := ri.Args
+	if fn.Signature.Recv() != nil {
+		call = "(" + args[0] + ")." + fn.Name()
+		args = args[1:]
+	}
+	nres := fn.Signature.Results().Len()
+	var lhs []string
+	for i := 0; i < nres; i++ {
+		lhs = append(lhs, fmt.Sprintf("r%d", i))
+	}
+	var src strings.Builder
+	fmt.Fprintf(&src, "package %s\n\nimport (\n\t\"fmt\"\n\t\"testing\"\n", fn.Pkg.Pkg.Name())
+	var ips []string
+	for p := range ri.Imports {
+		ips = append(ips, p)
+	}
+	sort.Strings(ips)
+	for _, p := range ips {
+		fmt.Fprintf(&src, "\t%s %q\n", ri.Imports[p], p)
+	}
+	src.WriteString(")\n\nfunc TestGocvReplay(t *testing.T) {\n")
+	for _, s := range ri.Setup {
+		src.WriteString("\t" + s + "\n")
+	}
+	for _, s := range assigns {
+		src.WriteString("\t" + s + "\n")
+	}
+	for _, s := range share {
+		src.WriteString("\t" + s + "\n")
+	}
+	src.WriteString("\tdefer func() {\n\t\tif r := recover(); r != nil {\n\t\t\tfmt.Printf(\"GOCV-REPLAY panic %v\\n\", r)\n\t\t}\n\t}()\n")
+	if nres > 0 {
+		fmt.Fprintf(&src, "\t%s := %s(%s)\n", strings.Join(lhs, ", "), call, strings.Join(args, ", "))
+		for _, l := range lhs {
+			fmt.Fprintf(&src, "\t_ = %s\n", l)
+		}
+	} else {
+		fmt.Fprintf(&src, "\t%s(%s)\n", call, strings.Join(args, ", "))
+	}
+	src.WriteString("\tfmt.Println(\"GOCV-REPLAY returned\")\n")
+	for i, l := range ri.Outputs {
+		fmt.Fprintf(&src, "\tfmt.Printf(\"GOCV-OUT %d %%v\\n\", %s)\n", i, l.Expr)
+	}
+	src.WriteString("}\n")
+	pkgDir := filepath.Dir(w.prog.Fset.Position(fn.Pos()).Filename)
+	got, _ := runHarness(pkgDir, src.String())
+	rec["replay_package_dir"] = pkgDir
+	rec["replay_harness"] = src.String()
+	rec["replay_output"] = truncate(got, 2000)
+	panicked := strings.Contains(got, "GOCV-REPLAY panic")
+	returned := strings.Contains(got, "GOCV-REPLAY returned")
+	if !panicked && !returned {
+		return false, "the replay harness did not run: " + truncate(got, 300)
+	}
+	switch {
+	case ri.Mode == "panics":
+		if panicked {
+			rec["replay_expect"] = "GOCV-REPLAY panic"
+			return true, "the real function panics on the model's input, outside the declared panic condition"
+		}
+		return false, "the real function returns normally on the model's input (the model follows a panicking path: semantics disagree)"
+	case o.Kind == "panics.iff_returns":
+		if returned {
+			rec["replay_expect"] = "GOCV-REPLAY returned"
+			return true, "the real function returns normally on the model's input although the declared panic condition holds"
+		}
+		return false, "the real function panics on the model's input"
+	}
+	if panicked {
+		return false, "the real function panics on the model's input (the model follows a returning path)"
+	}
+	// compare the outputs with the solver's
+	re := regexp.MustCompile(`GOCV-OUT (\d+) (.*)`)
+	real := map[int]string{}
+	for _, m := range re.FindAllStringSubmatch(got, -1) {
+		k, _ := strconv.Atoi(m[1])
+		real[k] = m[2]
+	}
+	outDesc := map[string]interface{}{}
+	for i, l := range ri.Outputs {
+		v := vals[fmt.Sprintf("rv_out_%d", i)]
+		r, has := real[i]
+		if v == nil || !has {
+			return false, "output " + l.Expr + " not observed"
+		}
+		switch l.Kind {
+		case "real", "int":
+			mv, ok := sexpNumber(v)
+			rv, err := strconv.ParseFloat(r, 64)
+			if !ok || err != nil {
+				return false, "output " + l.Expr + " is not numeric: model " + v.String() + ", real " + r
+			}
+			if math.Abs(mv-rv) > 1e-9*math.Max(1, math.Max(math.Abs(mv), math.Abs(rv))) {
+				return false, fmt.Sprintf("output %s differs: the solver derived %v, the real code returns %v (float64 rounding or a modelling gap)", l.Expr, mv, rv)
+			}
+			outDesc[l.Expr] = rv
+		case "bool":
+			if v.String() != r {
+				return false, fmt.Sprintf("output %s differs: the solver derived %s, the real code returns %s", l.Expr, v.String(), r)
+			}
+			outDesc[l.Expr] = r == "true"
+		case "str":
+			outDesc[l.Expr] = r
+		}
+	}
+	rec["replay_outputs"] = outDesc
+	var exp []string
+	for i := range ri.Outputs {
+		exp = append(exp, fmt.Sprintf("GOCV-OUT %d %s", i, real[i]))
+	}
+	rec["replay_expect"] = strings.Join(exp, "\n")
+	return true, "the real function, called on the model's input, returns exactly the values for which the solver refuted the clause"
+}
+
+func convLit(l replayLeaf, lit string) string {
+	return lit
+}
+
+
+// runHarness injects an in-package test with `go test -overlay` and returns its output.
+func runHarness(pkgDir, src string) (string, bool) {
+	scratch, err := os.MkdirTemp("", "gocv-replay")
+	if err != nil {
+		return "no scratch directory", false
+	}
+	defer os.RemoveAll(scratch)
+	tf := filepath.Join(scratch, "replay_test.go")
+	os.WriteFile(tf, []byte(src), 0o644)
+	ov, _ := json.Marshal(map[string]interface{}{"Replace": map[string]string{filepath.Join(pkgDir, "zz_gocv_replay_test.go"): tf}})
+	ovf := filepath.Join(scratch, "overlay.json")
+	os.WriteFile(ovf, ov, 0o644)
+	cctx, ccancel := context.WithTimeout(context.Background(), 120*time.Second)
+	defer ccancel()
+	cmd := exec.CommandContext(cctx, "go", "test", "-overlay", ovf, "-vet=off", "-count=1", "-timeout", "60s", "-run", "^TestGocvReplay$", "-v", ".")
+	cmd.Dir = pkgDir
+	cmd.Env = append(os.Environ(), "GOFLAGS=-mod=mod", "GOPROXY=off", "GOSUMDB=off", "GOTOOLCHAIN=local")
+	var ob bytes.Buffer
+	cmd.Stdout, cmd.Stderr = &ob, &ob
+	cmd.Run()
+	got := ob.String()
+	return got, strings.Contains(got, "GOCV-REPLAY")
 }
